@@ -1,3 +1,4 @@
 pub mod gdsgen;
 pub mod lefgen;
+pub mod rawgen;
 pub mod shapes;
